@@ -1,4 +1,13 @@
 import Model.Scalar
+import Model.MatrixArray
+/-!
+# `Domain` (pyPRISM/core/Domain.py)
+
+`dst2` / `dst3` are SciPy's *documented* unnormalised DST-II / DST-III direct sums
+(`scipy.fftpack.dst(type=2/3)`); the correspondence check validates them against SciPy
+on every run.  `Dom` carries the three stored scalars `_length, _dr, _dk`; the grids and
+coefficient arrays are functions of them (`build_grid` is called by every setter).
+-/
 open Transc Lit
 variable {α : Type} [Add α] [Sub α] [Mul α] [Div α] [Neg α] [Transc α] [Lit α] [Inhabited α]
 
@@ -8,3 +17,82 @@ def dst2 (N : Nat) (x : Array α) : Array α :=
 def dst3 (N : Nat) (x : Array α) : Array α :=
   tab N fun k => (if k % 2 = 0 then x[N-1]! else -(x[N-1]!)) +
     ofNat 2 * sumTo (N-1) fun n => x[n]! * sin (pi * ofNat ((2*k+1)*(n+1)) / ofNat (2*N))
+
+structure Dom (α : Type) where
+  length : Nat
+  dr : α
+  dk : α
+  deriving Inhabited
+
+/-- `np.pi/(spacing*length)`: the conjugate spacing -/
+def conj (length : Nat) (s : α) : α := pi / (s * ofNat length)
+
+/-- `Domain(length, dr=dr)` -/
+def Dom.ofDr (length : Nat) (dr : α) : Dom α := ⟨length, dr, conj length dr⟩
+/-- `Domain(length, dk=dk)` -/
+def Dom.ofDk (length : Nat) (dk : α) : Dom α := ⟨length, conj length dk, dk⟩
+
+/-- the constructor's argument check: exactly one spacing must be given -/
+def Dom.construct (length : Nat) (dr dk : Option α) : Except Err (Dom α) :=
+  match dr, dk with
+  | none, none => .error .valueError
+  | some _, some _ => .error .valueError
+  | some a, none => .ok (Dom.ofDr length a)
+  | none, some b => .ok (Dom.ofDk length b)
+
+inductive DomOp (α : Type)
+  | setDr (v : α)
+  | setDk (v : α)
+  | setLength (n : Nat)
+
+/-- the three property setters (after the repair of finding F1: `length` recomputes `dk`) -/
+def Dom.step (d : Dom α) : DomOp α → Dom α
+  | .setDr v => ⟨d.length, v, conj d.length v⟩
+  | .setDk v => ⟨d.length, conj d.length v, v⟩
+  | .setLength n => ⟨n, d.dr, conj n d.dr⟩
+
+/-- the `length` setter as shipped before the repair: `dk` stays at the old length's value -/
+def Dom.stepShipped (d : Dom α) : DomOp α → Dom α
+  | .setLength n => ⟨n, d.dr, d.dk⟩
+  | op => d.step op
+
+def Dom.run (d : Dom α) (ops : List (DomOp α)) : Dom α := ops.foldl Dom.step d
+
+/-- `self.r = np.arange(1,length+1)*dr` -/
+def Dom.r (d : Dom α) : Array α := tab d.length fun i => ofNat (i + 1) * d.dr
+/-- `self.k = np.arange(1,length+1)*dk` -/
+def Dom.k (d : Dom α) : Array α := tab d.length fun j => ofNat (j + 1) * d.dk
+/-- `DST_II_coeffs = 2.0*np.pi*r*dr` -/
+def Dom.c2 (d : Dom α) (i : Nat) : α := ofNat 2 * pi * (ofNat (i + 1) * d.dr) * d.dr
+/-- `DST_III_coeffs = k*dk/(4.0*np.pi*np.pi)` -/
+def Dom.c3 (d : Dom α) (j : Nat) : α := (ofNat (j + 1) * d.dk) * d.dk / (ofNat 4 * pi * pi)
+
+/-- `dst(DST_II_coeffs*array, type=2)/k` -/
+def Dom.toFourier (d : Dom α) (f : Array α) : Array α :=
+  let t := dst2 d.length (tab d.length fun i => d.c2 i * f[i]!)
+  tab d.length fun j => t[j]! / (ofNat (j + 1) * d.dk)
+
+/-- `dst(DST_III_coeffs*array, type=3)/r` -/
+def Dom.toReal (d : Dom α) (F : Array α) : Array α :=
+  let t := dst3 d.length (tab d.length fun j => d.c3 j * F[j]!)
+  tab d.length fun i => t[i]! / (ofNat (i + 1) * d.dr)
+
+/-- the pair function `marray[t_i,t_j]` as a 1-d array over the grid -/
+def MA.pair (A : MA α) (i j : Nat) : Array α := tab A.length fun l => A.at l i j
+
+/-- the common body of `MatrixArray_to_fourier/_to_real`: the loop runs over `iterpairs()`
+(`i ≤ j`), reads the upper entry and `__setitem__` writes both `[i,j]` and `[j,i]` -/
+def MA.mapPairs (A : MA α) (sp : Space) (T : Array α → Array α) : MA α :=
+  let tr : Array (Array α) := tab (A.rank * A.rank) fun idx =>
+    let i := idx / A.rank; let j := idx % A.rank
+    if i ≤ j then T (A.pair i j) else #[]
+  MA.build A.length A.rank sp fun l i j =>
+    (tr[(if i ≤ j then i else j) * A.rank + (if i ≤ j then j else i)]!)[l]!
+
+/-- `Domain.MatrixArray_to_fourier`: `ValueError` iff already marked Fourier -/
+def Dom.maToFourier (d : Dom α) (A : MA α) : Except Err (MA α) :=
+  if A.space = .fourier then .error .valueError else .ok (A.mapPairs .fourier d.toFourier)
+
+/-- `Domain.MatrixArray_to_real`: `ValueError` iff already marked Real -/
+def Dom.maToReal (d : Dom α) (A : MA α) : Except Err (MA α) :=
+  if A.space = .real then .error .valueError else .ok (A.mapPairs .real d.toReal)
